@@ -4,7 +4,8 @@ package main
 type Leg struct {
 	World  string // harness world name, optionally "/config"
 	Race   bool   // run the -race binary (unordered-access monitor)
-	Weight int    // share of the time budget
+	Weight int    // share of the time budget (thorough tier, explicit -budget)
+	Quick  int    // runs in the quick tier: a fixed quota, so that the work done (and what it can detect) does not depend on how fast the machine is
 }
 
 type Check struct {
@@ -39,10 +40,10 @@ var coreRealStub = map[string]string{
 var checks = map[string]*Check{
 	"C01": {
 		Legs: []Leg{
-			{World: "C01", Weight: 3},
-			{World: "C01", Race: true, Weight: 3},
-			{World: "C01/faulty", Weight: 2},
-			{World: "C01/restart", Weight: 2},
+			{World: "C01", Weight: 3, Quick: 5200},
+			{World: "C01", Race: true, Weight: 3, Quick: 1100},
+			{World: "C01/faulty", Weight: 2, Quick: 2900},
+			{World: "C01/restart", Weight: 2, Quick: 3100},
 		},
 		Probes:      []string{"concurrent_clients", "keepalive_followup_request", "unannounced_trailers", "requests_after_proxy_restart", "clients_hang_up_mid_response_before_the_others_start"},
 		Rule:        "Workload: 2..8 (thorough: ..48) concurrent clients with unique tokens in path, query, header and body; sizes across buffer boundaries; backend latency per request; a quarter of the clients send a follow-up request on their kept-alive connection; oracle compares status/header/body/trailer against the client's own token and counts backend invocations per token. Later additions: responses with announced, unannounced or no trailers; a leg in which the proxy process is killed and restarted behind the same address while the agent keeps running; clients that read a few KiB of a large response and hang up before the others start, some of which read slowly.",
@@ -51,12 +52,12 @@ var checks = map[string]*Check{
 	},
 	"C04": {
 		Legs: []Leg{
-			{World: "C04", Weight: 3},
-			{World: "C04/faulty", Weight: 2},
-			{World: "C04/window", Weight: 1},
-			{World: "C04b", Weight: 2},
-			{World: "C04b/faulty", Weight: 2},
-			{World: "C04b", Race: true, Weight: 1},
+			{World: "C04", Weight: 3, Quick: 5200},
+			{World: "C04/faulty", Weight: 2, Quick: 3800},
+			{World: "C04/window", Weight: 1, Quick: 310},
+			{World: "C04b", Weight: 2, Quick: 3000},
+			{World: "C04b/faulty", Weight: 2, Quick: 170},
+			{World: "C04b", Race: true, Weight: 1, Quick: 370},
 		},
 		Probes:      []string{"id_listed_more_than_once", "concurrent_pollers", "window_relist", "relisted_every_time", "poller_aborted", "half_closed_poller", "backend_reset_after_executing_post_on_reused_connection", "proxy_outage_of_many_polls", "burst_of_waiting_requests", "shim_open_requests_among_the_listed_ids"},
 		Rule:        "(a) real agent vs scripted fake proxy: pending-list replies repeat/permute/overlap 2..12 (thorough ..60) request IDs, plus a dedup-window leg re-listing an ID after up to 998 other IDs; counting backend; fetch/upload 5xx in the faulty leg. (b) real proxy with 2..5 concurrent harness pollers (some abandoning the list call) and 2..10 (..40) clients; every ID must be reported in exactly one list reply. Faulty leg also: a backend that executes a body-less POST and then resets the reused connection before answering (the request must not be sent again); an ID whose fetch answer is slow while the ID is listed again. Later additions: an outage of 2/9/13 failed list calls followed by a re-listing; bursts of 101..260 waiting client requests; with -shim-path, listed IDs that are shim opens whose websocket handshake the backend rejects (counted like any request).",
@@ -64,28 +65,28 @@ var checks = map[string]*Check{
 		RealStub:    coreRealStub,
 	},
 	"C05": {
-		Legs:        []Leg{{World: "C05", Weight: 1}},
+		Legs:        []Leg{{World: "C05", Weight: 1, Quick: 15000}},
 		Probes:      []string{"body_larger_than_buffers", "lockstep_multi_chunk", "through_wrapped_handler_chain", "declared_length_multi_chunk", "retry_while_streaming", "trickle_of_tiny_chunks", "upload_refused_before_response_started", "upload_starts_while_vm_identity_refresh_stalls", "stream_over_aged_http2_backend_connection", "shutdown_signal_while_streaming", "other_streams_open_when_the_stream_starts"},
 		Rule:        "Real agent vs fake proxy that decodes the upload incrementally; lock-step backend flushes chunk i+1 only after the proxy saw chunk i; 1..12 (thorough ..200) chunks of 1 B..70 KiB (thorough ..2 MiB), pauses, agent handler chain drawn per run (sessions / banner / shim wrappers on or off), backend framing chunked or with a declared Content-Length, SimNet buffer sizes 1..256 KiB, latency 0..200 ms. Each chunk must be visible within 2 s + network time. Later additions: trickle mode (hundreds of 1..4-byte chunks), late first byte and refused first attempt, a VM identity refresh that stalls, an aged h2c backend connection, SIGTERM with a grace period in mid-stream, and four other long-lived streams open when the measured one starts.",
 		Assumptions: commonAssumptions,
 		RealStub:    coreRealStub,
 	},
 	"C08": {
-		Legs:        []Leg{{World: "C08", Weight: 1}},
+		Legs:        []Leg{{World: "C08", Weight: 1, Quick: 21000}},
 		Probes:      []string{"backoff_measured", "reached_cap", "direct_evaluation", "requests_in_flight_while_polls_fail", "agent_on_a_vm", "agent_without_proxy_timeout"},
 		Rule:        "Real agent polling loop vs fake proxy with scripted list failures (5xx, 404, garbled JSON, truncated body, refused dial, hang until the 60 s client timeout) in runs of 1..16 (sometimes ..80) consecutive failures separated by successes; zero network latency so the gap is the back-off sleep; envelope 0.9..1.1 x min(2^k ms, 3 s). Retry counts the loop cannot reach (2^32, max uint, ...) are evaluated by direct calls (reported as probe direct_evaluation, not as simulated runs). Later additions: list connections dropped or reset before any answer, Retry-After on 429/503, replies cut after a 200 head, 401 on a VM, requests completing in the background while polls fail, -proxy-timeout=0.",
 		Assumptions: commonAssumptions,
 		RealStub:    coreRealStub,
 	},
 	"C20": {
-		Legs:        []Leg{{World: "C20", Weight: 1}},
+		Legs:        []Leg{{World: "C20", Weight: 1, Quick: 23000}},
 		Probes:      []string{"health_gated_start", "backend_unhealthy_at_startup", "unhealthy_exit_expected", "graceful_shutdown", "prompt_shutdown", "signal_during_list_call", "response_completed_during_grace", "signal_while_health_gated", "signal_while_list_calls_fail", "second_signal_during_grace_period", "health_check_answered_late", "failing_health_check_with_stalled_body"},
 		Rule:        "Real agent main() with documented flags vs fake proxy and a backend with a scripted health endpoint: start-up failures / late listener, 0..24 periodic results with 0..80% failures, interval 1/2/5 s, threshold 1..4, health checks on/off; SIGINT or SIGTERM at 0..31 s after the first poll, grace 0/2/10/30 s, backend latency 0..20 s. Reference: consecutive-failure counter with reset; exit instants compared in simulated time (zero network latency). Also: a signal at a fixed time after start-up (while still health-gated), a second signal during the grace period, a pending-list endpoint that starts failing before the signal, and slow start-up credentials (signal before the first poll). Later additions: late health answers, failing checks whose body stalls, fractional grace periods.",
 		Assumptions: commonAssumptions,
 		RealStub:    coreRealStub,
 	},
 	"C09": {
-		Legs:        []Leg{{World: "C09", Weight: 1}},
+		Legs:        []Leg{{World: "C09", Weight: 1, Quick: 18000}},
 		Probes:      []string{"forged_user_id_with_forwarding", "authorization_with_stripping", "websocket_handshake_seen", "user_id_named_hop_by_hop_by_client", "identity_with_escapes", "upgrade_request_naming_the_user_id", "empty_identity_with_forged_header", "header_name_followed_by_space", "shim_open_url_with_user_info"},
 		Rule:        "Real agent with all four combinations of -forward-user-id / -strip-credentials x shim x sessions vs fake proxy asserting a user per request and serving client requests that carry forged, repeated and odd-case X-Inverting-Proxy-User-ID and Authorization fields (also named in the client's Connection header), asserted identities containing + and %XX; 2..6 requests of several users in flight at once; plain HTTP and shim open (websocket handshake) observed at a recording backend. Later additions: empty asserted identities, plain upgrade requests, rejected first handshakes, own-then-forged repeated identity headers, plain paths sharing the shim prefix, header names with a space, shim open URLs with user info.",
 		Assumptions: commonAssumptions,
@@ -93,9 +94,9 @@ var checks = map[string]*Check{
 	},
 	"C06": {
 		Legs: []Leg{
-			{World: "C06", Weight: 4},
-			{World: "C06/nofault", Weight: 1},
-			{World: "C06", Race: true, Weight: 2},
+			{World: "C06", Weight: 4, Quick: 8800},
+			{World: "C06/nofault", Weight: 1, Quick: 2000},
+			{World: "C06", Race: true, Weight: 2, Quick: 1400},
 		},
 		Probes:      []string{"early_5xx_while_body_streaming", "retry_attempt_seen", "backend_answers_late", "agent_on_a_vm"},
 		Rule:        "Real agent (response forwarder + http.Transport) vs a byte-level fake proxy: per upload attempt a scripted fault {5xx, reset, close, none} at a byte offset of the raw request stream (header block, body offset 0/1/around 4096/anywhere/after the terminating chunk), 5xx answered while the body is still streaming with or without draining; response sizes placing the serialised upload around the 4096-byte replay buffer, tiny and large; SimNet buffers 512 B..64 KiB park the previous attempt's body writer. Oracle: every acknowledged complete attempt parses to exactly the backend's response; at most 3 attempts; no forwarder goroutine blocked at the end. The backend may answer only after 2 s / 20 s (every upload attempt may have failed by then: nothing of the finished upload may stay blocked). Later additions: Retry-After on 503 answers; the agent on a simulated VM whose identity token changes on every fetch, with 401 as an answer kind.",
@@ -103,63 +104,63 @@ var checks = map[string]*Check{
 		RealStub:    coreRealStub,
 	},
 	"C02": {
-		Legs:        []Leg{{World: "C02", Weight: 5}, {World: "C02/slow", Weight: 2}, {World: "C02/bfault", Weight: 2}},
+		Legs:        []Leg{{World: "C02", Weight: 5, Quick: 7500}, {World: "C02/slow", Weight: 2, Quick: 2900}, {World: "C02/bfault", Weight: 2, Quick: 3200}},
 		Probes:      []string{"body_at_least_4096", "escaped_target", "custom_fields", "agent_with_shim_mounted", "request_with_expect_continue"},
 		Rule:        "Raw TCP client (exact bytes, tape-chosen write sizes and pauses) -> real proxy -> real agent -> raw recording backend with an independent wire parser; 1..4 requests in flight; generated methods (incl. extension tokens), origin-form targets with escapes / dot segments / queries without ';', Host variants, 0..8 header fields with repeats, empty and long values, hop-by-hop fields, bodies 0..70 KiB (thorough ..5 MiB) by Content-Length or chunked; SimNet segmentation up to 1-byte segments. Input-dominated: the simulator contributes segmentation, pauses and concurrent traffic. Later additions: form bodies, a backend dial refused once, the shim mounted with Accept-Encoding lists, bodies announced with Expect: 100-continue.",
 		Assumptions: commonAssumptions,
 		RealStub:    coreRealStub,
 	},
 	"C03": {
-		Legs:        []Leg{{World: "C03", Weight: 3}, {World: "C03", Race: true, Weight: 2}, {World: "C03h2", Weight: 2}, {World: "C03h2", Race: true, Weight: 1}},
+		Legs:        []Leg{{World: "C03", Weight: 3, Quick: 8700}, {World: "C03", Race: true, Weight: 2, Quick: 1500}, {World: "C03h2", Weight: 2, Quick: 5700}, {World: "C03h2", Race: true, Weight: 1, Quick: 770}},
 		Probes:      []string{"interim_1xx", "several_declared_trailers", "trailers", "one_byte_first_write", "bodiless_response", "http2_backend", "response_head_after_half_a_minute", "trailer_section_of_several_kilobytes"},
 		Rule:        "Raw client -> real proxy -> real agent -> raw scripted backend writing exact wire bytes with scripted pacing: final status 200..599 (incl. 204/304 and HEAD), 0..2 interim 1xx, 0..7 header fields with repeats (Set-Cookie), empty and long values, hop-by-hop fields, framing by Content-Length / chunked / close, bodies 0..70 KiB (thorough ..4 MiB) written in pieces from 1 byte, 0..3 declared trailers (one comma-joined Trailer field or one field each) and undeclared trailers; 1..4 responses in flight; race-detector leg for the maps shared between handler and serialiser. Second pair of legs: the same oracle with an HTTP/2 cleartext backend (agent -force-http2, real http.Server behind h2c; no 1xx, no hop-by-hop fields, no close-delimited framing). Later additions: heads that arrive 32 s late, trailer blocks of several KB, late HTML bodies through the wrapper chain.",
 		Assumptions: commonAssumptions,
 		RealStub:    coreRealStub,
 	},
 	"C11": {
-		Legs:        []Leg{{World: "C11", Weight: 3}, {World: "C11/nobig", Race: true, Weight: 1}},
+		Legs:        []Leg{{World: "C11", Weight: 3, Quick: 1500}, {World: "C11/nobig", Race: true, Weight: 1, Quick: 360}},
 		Probes:      []string{"both_directions", "idle_poll_408", "data_post_more_than_10", "poll_returned_more_than_10", "injection_applied", "concurrent_sessions", "backend_closed_after_last_message", "session_opened_after_another_closed", "close_behind_backlog", "data_post_above_2_mib"},
 		Rule:        "Harness shim client (protocol of the injected script: open, then one data post and one poll outstanding at a time, close) -> real proxy -> real agent (shim handlers, relay goroutines) -> real gorilla websocket backend. one or two concurrent sessions; 0..30 (thorough ..120) messages per direction and session: ASCII/UTF-8 text, arbitrary binary, JSON documents; sizes 0..40 KB (thorough ..1 MiB); batches of 1..25 messages per data post; pauses up to 21 s (idle polls end in 408); protocol version 0/1/absent; header injection on in a third of the runs. Two FIFO reference queues compared at quiescence. Also: browsers running two sessions one after the other while another session is in use, backends that close after their last message, ignore the closing handshake or read slowly behind small socket buffers, and a close issued at once behind a backlog of accepted messages. Later additions: data posts above 2 MiB (plain leg), resource.headers entries present with empty, null or non-string values.",
 		Assumptions: commonAssumptions,
 		RealStub:    coreRealStub,
 	},
 	"C12": {
-		Legs:        []Leg{{World: "C12", Weight: 3}, {World: "C12", Race: true, Weight: 2}},
+		Legs:        []Leg{{World: "C12", Weight: 3, Quick: 9800}, {World: "C12", Race: true, Weight: 2, Quick: 1600}},
 		Probes:      []string{"concurrent_calls", "double_close_same_instant", "data_racing_close", "backend_closed_first", "odd_message_types", "backend_ignores_closing_handshake", "overlapping_opens", "stalled_backend_on_other_session", "data_after_backend_closed", "batch_with_a_bad_session_entry", "open_against_backend_that_never_answers_the_handshake", "shim_posts_without_content_length"},
 		Rule:        "1..2 shim sessions and 2..10 data/poll/close calls with valid, unknown, malformed and empty arguments, most of them issued at the same simulated instant so that the scheduler interleaves them at the yield points inside the shim handlers and the connection (data vs close, close vs close, poll vs backend close); in a third of the runs the backend sends 0..14 messages and closes first. Every call must be answered with 200/400/408/500; calls after an answered close must get 400; crash monitor + race-detector leg. Also: overlapping opens against a slow handshake, a backend that ignores the closing handshake, a data call seconds after the backend closed (must be 400 when nothing was queued), and a second session whose calls must be answered while the first session's backend has stopped reading. Later additions: batches whose second entry names no session, an open against a backend that never answers the handshake, shim posts with chunked transfer encoding.",
 		Assumptions: commonAssumptions,
 		RealStub:    coreRealStub,
 	},
 	"C13": {
-		Legs:        []Leg{{World: "C13", Weight: 1}},
+		Legs:        []Leg{{World: "C13", Weight: 1, Quick: 14000}},
 		Probes:      []string{"open_succeeded", "open_rejected", "non_shim_request", "backend_redirects_handshake", "sibling_of_shim_prefix", "backend_dial_refused", "many_pending_polls", "handshake_with_rewritten_host"},
 		Rule:        "1..6 concurrent shim open requests whose bodies come from a URL grammar (absolute, scheme-relative, path-only, opaque scheme:rest, empty, userinfo, IPv6 literals, odd ports, foreign and link-local hosts, control bytes) or are random byte strings, plus 0..3 requests on look-alike paths outside the shim prefix; closed-world SimNet records every address any goroutine of the agent's host dials. Input-dominated: the simulator's contribution is that no dial can escape observation. Later additions: refused first dials, 40 sessions with pending polls, the Host of the handshake, non-canonical paths outside the shim prefix.",
 		Assumptions: commonAssumptions,
 		RealStub:    coreRealStub,
 	},
 	"C10": {
-		Legs:        []Leg{{World: "C10", Weight: 3}, {World: "C10/lru", Weight: 3}, {World: "C10", Race: true, Weight: 2}, {World: "C10/lru", Race: true, Weight: 1}},
+		Legs:        []Leg{{World: "C10", Weight: 3, Quick: 5100}, {World: "C10/lru", Weight: 3, Quick: 3800}, {World: "C10", Race: true, Weight: 2, Quick: 740}, {World: "C10/lru", Race: true, Weight: 1, Quick: 240}},
 		Probes:      []string{"session_issued", "cookies_restored", "concurrent_sessions", "lru_eviction", "late_response_after_eviction", "interim_1xx", "public_suffix_domain_cookie", "session_cookie_presented_twice", "follow_up_before_body_is_read", "concurrent_requests_in_uncached_session", "empty_session_cookie_presented", "shimmed_websocket_open_in_a_session", "set_cookie_line_the_parser_rejects"},
 		Rule:        "1..4 (LRU leg: 3..6 with a window of 2) modelled browsers send 2..8 scripted requests over three hosts and four paths through real proxy and agent (-session-cookie-name) to a backend emitting generated Set-Cookie operations (set, overwrite, Path/Domain scoped, Max-Age, Secure/HttpOnly, delete, expired), with simulated gaps across expiry instants, then a burst of concurrent requests in all sessions plus two in one session. Reference: one independent net/http/cookiejar per modelled session on the same clock; values carry the session's tag so any foreign value is a leak. Also: interim 1xx before the final response, Domain=<public suffix> cookies on hosts under one- and two-label suffixes, clients presenting the session cookie twice, a follow-up request issued as soon as the response header has arrived (with a 200 KB banner page still unread), and two simultaneous requests of a session that has dropped out of the cache. Later additions: unparsable Set-Cookie lines, empty session cookies, shimmed opens inside sessions.",
 		Assumptions: commonAssumptions,
 		RealStub:    coreRealStub,
 	},
 	"C14": {
-		Legs:        []Leg{{World: "C14", Weight: 1}},
+		Legs:        []Leg{{World: "C14", Weight: 1, Quick: 21000}},
 		Probes:      []string{"shim_script_injected", "banner_frame_served", "non_html_untouched", "already_framed_original_body", "head_straddles_first_kilobyte", "interim_1xx", "encoded_body_passed_through", "html_body_starts_late", "two_navigations_to_one_path_with_different_queries"},
 		Rule:        "Raw client -> real proxy -> real agent with -inject-banner and/or -shim-websockets -> raw scripted backend; the backend's own response is the reference. Generated: method, Accept, Sec-Fetch-Dest/Mode, Referer; status; Content-Type from unambiguous HTML and non-HTML families; Content-Disposition; bodies with <head> at offsets around 0 and the first kilobyte, repeated, upper-case or truncated; backend write boundaries through <head>; SimNet segmentation up to 80%. Input-dominated; the simulated dimension is how the body is split across reads. Later additions: interim 1xx, Content-Encoding, late first body byte, odd Content-Disposition parameters, non-canonical paths, two navigations to one path with different queries.",
 		Assumptions: commonAssumptions,
 		RealStub:    coreRealStub,
 	},
 	"C07": {
-		Legs:        []Leg{{World: "C07", Weight: 3}, {World: "C07fp", Weight: 3}, {World: "C07", Race: true, Weight: 2}, {World: "C07fp", Race: true, Weight: 1}},
+		Legs:        []Leg{{World: "C07", Weight: 3, Quick: 4000}, {World: "C07fp", Weight: 3, Quick: 6400}, {World: "C07", Race: true, Weight: 2, Quick: 510}, {World: "C07fp", Race: true, Weight: 1, Quick: 560}},
 		Probes:      []string{"failures_among_healthy_requests", "backend_unreachable_502", "shim_enabled", "proxy_side_failures_among_healthy_requests", "http2_backend_unreachable", "shim_posts_without_content_length"},
 		Rule:        "(real-proxy leg) 2..8 healthy concurrent requests next to 1..5 sabotaged ones: backend reset before headers / mid body, close mid chunk, garbage instead of HTTP, malformed header or chunk, hang then close, malformed shim input (open/data/poll/close) when the shim is on; then a window with every backend dial refused (client must get 502); then a probe. (fake-proxy leg) pending lists with 5xx / garbled JSON / HTML / > 1 MB replies between good ones, fetches rejected, truncated, garbage, without or with a bad start time, reset; uploads rejected or reset - each for chosen request IDs only; healthy IDs and a later probe must be served. Crash monitor and race-detector legs. Shim sabotage also: data posts racing the close of the same session (with a backend that has stopped reading), a backend that says goodbye and hangs up before the first poll; fake-proxy leg: uploads answered early (400/503) while the response is still streaming. Later additions: an h2c backend with -force-http2 -debug, a backend that ends a shim session with a close frame while client data is backed up, invalid websocket frames, shim posts with chunked transfer encoding.",
 		Assumptions: commonAssumptions,
 		RealStub:    coreRealStub,
 	},
 	"C15": {
-		Legs:        []Leg{{World: "C15", Weight: 3}, {World: "C15", Race: true, Weight: 1}},
+		Legs:        []Leg{{World: "C15", Weight: 3, Quick: 2100}, {World: "C15", Race: true, Weight: 1, Quick: 190}},
 		Probes:      []string{"both_directions_at_once", "concurrent_connections", "stream_larger_than_64k", "passthrough_request", "server_speaks_first", "slow_reader_with_bulk_data", "orderly_end_of_both_directions", "slow_passthrough_upload", "reader_stalled_for_20s_with_data_backed_up", "client_embeds_the_bridge_as_a_library", "websocket_leg_through_http_intermediary", "intermediary_without_half_close"},
 		Rule:        "TCP clients -> real tcp-bridge-frontend main() -> websocket over SimNet through the real h2c-wrapped tcp-bridge-backend main() -> harness TCP server. 1..4 (thorough ..32) connections, per direction 0..6 writes of 0 B..70 KB (all 256 byte values), reader buffers 1 B..100 KB, both directions at once, SimNet buffers 1..64 KiB and segmentation up to 70%; plus plain HTTP POSTs to the bridge backend for the pass-through clause. Also: server-speaks-first connections, readers that stall for 1.5 s / 4 s, and connections on which both peers end their direction in an orderly way (half-close, read to the end, close) - nothing may be lost. Later additions: readers stalling 21 s, the websocket leg through an HTTP intermediary (stock reverse proxy, or one without half-close), slow pass-through uploads, non-canonical pass-through paths, and clients that embed the bridge as a library (DialWebsocket, empty writes included).",
 		Assumptions: commonAssumptions,
@@ -173,7 +174,7 @@ var checks = map[string]*Check{
 		},
 	},
 	"C16": {
-		Legs:        []Leg{{World: "C16", Weight: 1}},
+		Legs:        []Leg{{World: "C16", Weight: 1, Quick: 16000}},
 		Probes:      []string{"one_side_closed_first", "several_connections", "graceful_close_complete_data", "graceful_close_slow_reader_bulk_data", "tcp_server_down", "next_hop_never_answers_the_handshake", "websocket_leg_through_http_intermediary", "intermediary_without_half_close"},
 		Rule:        "Same world as C15; per connection the client, the server or both close after their writes with a delay of 0..5 s relative to data in flight in either direction. Liveness in simulated time: the surviving peer must see end-of-stream within 60 s after having received everything sent before the close; SimNet's connection table is the counter for leaked bridge connections. Also: small socket buffers with both directions full when both peers go away (the bridge must still release everything), slow readers, peers that only half-closed earlier and must still receive the rest. Later additions: the TCP server down, the websocket leg through an HTTP intermediary (with or without half-close), a next hop that never answers the websocket handshake.",
 		Assumptions: commonAssumptions,
@@ -187,7 +188,7 @@ var checks = map[string]*Check{
 		},
 	},
 	"C17": {
-		Legs:        []Leg{{World: "C17", Weight: 1}},
+		Legs:        []Leg{{World: "C17", Weight: 1, Quick: 6400}},
 		Probes:      []string{"admin_api_refused", "authorised_agent_call", "unauthorised_agent_call", "user_request_routed", "reregistered_old_agent", "crafted_request_id", "federated_user_without_email", "intruder_concurrent_with_rightful_agent", "oauth_token_without_email"},
 		Rule:        "App Engine proxy behind the platform's request wrapper with a stub platform: 1..4 registered backends; admin API calls, agent calls (pending/request/response) and end-user requests by generated identities (anonymous, signed-in user, OAuth agent, OAuth user, admin, OAuth admin) against own / other / unknown backend and request IDs. Reference ACL table maintained from successful admin calls; store snapshot compared before/after every refused call. Later additions: federated users, OAuth accounts without e-mail, agent-account sign-in without OAuth, concurrent intruders with datastore latency, re-registration.",
 		Assumptions: commonAssumptions,
@@ -200,7 +201,7 @@ var checks = map[string]*Check{
 		},
 	},
 	"C18": {
-		Legs:        []Leg{{World: "C18", Weight: 1}},
+		Legs:        []Leg{{World: "C18", Weight: 1, Quick: 5300}},
 		Probes:      []string{"routed", "answered_404", "shared_fallback", "lookup_fault", "registrations_changed_between_lookups", "busy_backend_polls_return_at_once", "answered_then_backend_deleted_then_same_url", "owner_with_more_than_500_backends", "end_user_address_with_upper_case_letters"},
 		Rule:        "1..6 backends with 1..3 prefixes each from a menu of nested / overlapping / duplicate / empty prefixes for two users and allUsers; each backend's agent polled 1 s .. 20 min before the requests (or never), clock advanced by the simulator across the 5-minute window; 1..5 concurrent user requests; tracker-lookup RPC faults in a sixth of the runs. Independent specification: longest matching prefix among the user's backends, shared fallback only without a match, routed iff live; ties accept either. Also: a second lookup round for the same users and paths 10 s later, after a more specific backend was registered and polled or a backend was deleted; the platform's clean-up cron call before the lookups. Later additions: busy backends, failing backend queries, requests answered before their backend is deleted and repeated with the same URL, owners with more than 500 registrations, user addresses with upper-case letters.",
 		Assumptions: commonAssumptions,
@@ -213,7 +214,7 @@ var checks = map[string]*Check{
 		},
 	},
 	"C19": {
-		Legs:        []Leg{{World: "C19", Weight: 2}, {World: "C19/faulty", Weight: 2}, {World: "C19", Race: true, Weight: 1}},
+		Legs:        []Leg{{World: "C19", Weight: 2, Quick: 720}, {World: "C19/faulty", Weight: 2, Quick: 680}, {World: "C19", Race: true, Weight: 1, Quick: 81}},
 		Probes:      []string{"response_relayed", "timeout_504", "request_across_part_limit", "response_across_part_limit", "both_respond_writes_fail", "concurrent_clients", "request_exact_multiple_of_part_size", "response_exact_multiple_of_part_size", "repeated_get_not_replayed", "cleanup_cron_between_post_and_pickup", "respond_call_cut_partway", "memcache_unavailable", "hundred_completed_requests_still_stored"},
 		Rule:        "1..4 concurrent client requests (GET/POST, unique tokens, some sharing user and URL) and a scripted authorised agent (list, fetch, respond after 0..29 s or never) through the App Engine proxy on the stub platform; request/response sizes 0 B .. 2,000,001 B around the 1,000,000-byte inline and part limits; memcache eviction 0/30/100%; faulty leg fails the n-th datastore Put/Get/RunQuery or memcache Set of a kind, including both writes of one respond call. Every handler call must return within 31 s of simulated time. Also: payloads whose stored length is exactly 1, 2 or 3 MB, repeated GETs of one URL whose first answer carried Cache-Control (never replayed), and the platform's clean-up cron call between a respond call and the client's next look. Later additions: respond calls cut half-way, memcache down for the whole run, a backlog of 100+ completed requests; fault-free runs also require that the polling agent obtains every stored request whose client ends with 504.",
 		Assumptions: commonAssumptions,
